@@ -38,11 +38,13 @@ def any_template(draw: Callable) -> tuple:
 def corpus_traits(draw: Any, item: dict) -> list:
     """corpus sweep: default / all, sometimes a random subset"""
     k = draw(st.integers(0, 9))
-    if k < 5:
+    if k < 4:
         return list(DEFAULT_TRAITS)
-    if k < 8:
+    if k < 6:
         return list(TRAITS)
-    return config.trait_subset(draw)
+    if k < 8:
+        return [t for t in DEFAULT_TRAITS if t != "math"]
+    return config.trait_subset_light(draw)
 
 
 common.install(
@@ -56,7 +58,7 @@ common.install(
         "terms displayed by #show statements); satisfiability is the special case of an empty projection; a result rejected by clingo is a violation. "
         "non-trivial = at least one pass application changed the program (trace: output != input) AND P+I has an answer set; distinct = distinct (program, configuration) hash."
     ),
-    traits_fn=config.trait_subset,
+    traits_fn=config.trait_subset_light,
     corpus_sel=lambda: common.corpus_entries(),
     corpus_traits=corpus_traits,
     template=any_template,
